@@ -46,6 +46,10 @@ RULE = ("One feature with 1-2 scenarios of 1-3 steps. Every step function (befor
         "changed it (then per handler: as before or as the step left it); after run() it equals the list after the last scenario. "
         "Named-logger dimension: 0-3 handlers on the logger the steps log to x clear-handlers x 8 switches: with log capture + "
         "clear-handlers none of them receives a record emitted inside a scenario. "
+        "Hostile-exception dimension: a step fails with an AssertionError-, StepNotImplementedError(pending)- or Exception-derived "
+        "exception whose __str__ raises UnicodeDecodeError / UnicodeEncodeError (behave builds the failure message inside the capture "
+        "window) x emission profiles x 8 switches, as first, middle or last scenario: an ordinary failing step (report = exactly its "
+        "captured output, streams/handlers restored, the run continues with the next scenario). "
         "Volume dimension: a passing step emits N stdout lines, N stderr lines and N log records before the failing step, "
         "N = capacity-1, capacity, capacity+1, 2*capacity+1 where capacity is read at run time from the real LoggingCapture "
         "handler object (logging.handlers.BufferingHandler capacity, the only size constant in behave/capture.py and "
@@ -64,6 +68,8 @@ ASSUMPTIONS = ["scenario hooks do not print (before_scenario runs before the per
                "promises to undo user changes; handlers added by a step stay): both accepted; never accepted: behave's own "
                "LoggingCapture handler still on the root logger after a scenario or after the run, or the capture level left behind",
                "duplicated markers inside a report are not flagged (statement: contains everything / nothing from other scenarios)",
+               "an exception whose __str__ raises something that is NOT a UnicodeError is outside the alphabet (textutil.text() only promises to "
+               "cope with undecodable text); __repr__/__format__ of exceptions are not called by the failure path",
                "KeyboardInterrupt raised inside a step hook is outside the alphabet (hook errors are Exception subclasses)",
                "child-process runs (thorough) compare marker sets/orders on the real pipes, not complete byte images (tracebacks, timings)"]
 
@@ -93,8 +99,17 @@ def base(o):
     return o.split()[0]
 
 
+# failing steps whose exception calls back into user code when behave builds the failure message INSIDE the capture window:
+# __str__ raises a UnicodeError (a bytes message decoded/encoded with the wrong codec); behave.textutil.text() is documented to
+# cope with "exception-traceback w/ weird encoding or bytes", so these are ordinary failures
+UNI_KINDS = ("ude",     # AssertionError subclass, args non-empty, __str__ raises UnicodeDecodeError
+             "uee",     # AssertionError subclass, __str__ raises UnicodeEncodeError
+             "pude",    # StepNotImplementedError (pending) subclass, __str__ raises UnicodeDecodeError
+             "xude")    # plain Exception subclass, __str__ raises UnicodeDecodeError (message built by traceback.format_exc)
+
+
 def isfail(o):
-    return base(o) in FAILING
+    return base(o) in FAILING or base(o) in UNI_KINDS
 
 # logging variants: args, user handler installed in before_scenario?, effective capture level, filter
 LOGVARS = {
@@ -437,10 +452,16 @@ def drive(scens, sw, lvname, vol=None):
                     raise RuntimeError("err")
                 if kind == "kbi":
                     raise KeyboardInterrupt()
+                if kind in UNI_KINDS:
+                    bad_str = ((lambda self: u"\xff".encode("ascii")) if kind == "uee"
+                               else (lambda self: b"\xff".decode("ascii")))
+                    parent = {"ude": AssertionError, "uee": AssertionError, "pude": m["StepNotImplementedError"],
+                              "xude": Exception}[kind]
+                    raise type("Bad" + kind, (parent,), {"__str__": bad_str})("message in the wrong codec")
             step_impl.__name__ = "step_" + kind
             return step_impl
 
-        for kind in OUTCOMES + ("vol",) + STATE_KINDS:
+        for kind in OUTCOMES + ("vol",) + STATE_KINDS + UNI_KINDS:
             reg.add_step_definition("step", "{sid:w} %s" % kind, make_step(kind))
             reg.add_step_definition("step", "{sid:w} %s {prof:w}" % kind, make_step(kind))
 
@@ -674,6 +695,19 @@ def judge(scens, sw, lvname, obs, v):
     if obs["escaped"]:
         v.append(({"subcheck": "run", "clause": "exception-escapes-run", "exc": obs["escaped"]},
                   "switches %s: run() raised %s" % (sws, obs["escaped"])))
+    # the run continues with the next scenario after a failing one (only a KeyboardInterrupt aborts it)
+    interrupted = False
+    for si, seq in enumerate(scens):
+        sts = [st_ for st_, _ in obs.get("steps", [[]] * len(scens))[si]] if obs.get("steps") else []
+        if si > 0 and not interrupted and sts and sts[0] == "untested":
+            prev = [base(o) for o in scens[si - 1] if isfail(o)]
+            v.append(({"subcheck": "run", "clause": "run-does-not-continue-after-failing-scenario",
+                       "first_failing": prev[0] if prev else "-"},
+                      "switches %s: scenario S%d was never started (steps %s) although nothing interrupted the run" % (sws, si, sts)))
+            break
+        fk = [ki for ki, o in enumerate(seq) if isfail(o)]
+        if fk and base(seq[fk[0]]) == "kbi":
+            interrupted = True
 
     # (5) root logger restored at scenario end
     for where, same_h, hs, want_h, lvl, want_l, step_level, n_lc, how in obs["snap"]:
@@ -1000,6 +1034,27 @@ def rootstate_cases(tier):
                 yield (prog, sw, lvname)
 
 
+def unicode_cases(tier):
+    """a step fails with an exception whose __str__ raises UnicodeDecodeError / UnicodeEncodeError (AssertionError-, pending- and
+    Exception-derived) x emission profiles (output before the raise) x 8 switches; first, middle, last scenario of 3"""
+    quick = tier == "quick"
+    profs = ("aa", "qq", "oq", "eq", "lq", "qa", "aq", "dd") if quick else \
+        tuple(sorted(set(a + b for a in "aqoeldf" for b in "aq") | {"dd", "ff"}))
+    lvs = ("handler", "nohandler", "combo") if quick else ("handler", "nohandler", "setup_logging", "level", "filter-", "clear", "combo",
+                                                          "rs|hook|0|WARNING|1|0|-", "rh|1|2|1")
+    for lvname in lvs:
+        for kind in UNI_KINDS:
+            for pp in profs:
+                sfx = "" if pp == "aa" else " " + pp
+                k = kind + sfx
+                progs = [((k,), ("fail",), ("pass",)), (("pass",), ("pass" + sfx, k), ("fail",)), (("fail",), ("pass",), (k,))]
+                if not quick:
+                    progs += [((k,), (k,), (k,)), (("exec" + sfx, k), ("pass",)), (("setlvl" + sfx, k), ("fail",))]
+                for prog in progs:
+                    for sw in SWITCHES:
+                        yield (prog, sw, lvname)
+
+
 def emission_cases(tier):
     """what each step / its hooks emit (incl. nothing at all, only below the capture level, only a filtered-out logger)
     and steps that change the root logger inside the scenario; the special scenario is first, middle, last or all of a
@@ -1068,9 +1123,12 @@ def run(ctx):
                                        "position_of_special_scenario": ["first", "middle", "last", "all"]}
     ctx.bounds["pre_existing_root_handlers"] = {"count": [0, 1, 2, 3], "added": ["before the run", "in before_all", "both"],
                                                 "clear_handlers": [False, True], "scenarios": "3-4"}
+    ctx.bounds["exception_str_raises_unicode_error"] = list(UNI_KINDS)
     ctx.bounds["volume_N"] = ["%d*capacity%+d" % mo for mo in VOLUMES]
     ctx.sweep(run_case, cases(ctx.tier), chunk=48, name="outcome sequences x 8 capture switches x logging variants")
     ctx.sweep(volume_case, volume_cases(ctx.tier), chunk=2, name="volume: N lines/records around the log handler capacity")
+    ctx.sweep(run_case, unicode_cases(ctx.tier), chunk=48,
+              name="failing step whose exception's __str__ raises a UnicodeError x emission profiles x 8 switches")
     ctx.sweep(run_case, emission_cases(ctx.tier), chunk=48,
               name="emission profiles (silent / below level / filtered-out) and steps changing the root logger, 3 scenarios")
     ctx.sweep(run_case, roothandler_cases(ctx.tier), chunk=16,
